@@ -248,57 +248,63 @@ MUTATORS = {"update", "pop", "popitem", "clear", "setdefault", "__setitem__",
 
 
 def _check_substitute(ctx, model):
+    """path rules on substitute(): the caller's mapping is never written to;
+    the table handed to make_subst_func holds the keyword assignments; the
+    result is mapper_cls(make_subst_func(table))(expression)"""
     m, fn = model.func(f"{SUB}:substitute")
     loc = m.loc(fn)
     params = [a.arg for a in fn.args.args]
-    if len(params) < 2:
+    if len(params) < 2 or fn.args.kwarg is None:
         raise AnalysisError("substitute(): signature changed")
-    table = params[1]
-    copied_at = None
-    first_mut = None
-    for i, st in enumerate(fn.body):
-        for n in ast.walk(st):
-            if isinstance(n, ast.Assign) and any(
-                    isinstance(t, ast.Name) and t.id == table for t in n.targets) \
-                    and st is n:
-                v = n.value
-                src = ast.unparse(v)
-                if src in (f"{table}.copy()", f"dict({table})",
-                           f"{{**{table}}}") or src.startswith(f"{{**{table},"):
-                    if copied_at is None:
-                        copied_at = i
-            if isinstance(n, ast.Call) and isinstance(n.func, ast.Attribute) \
-                    and isinstance(n.func.value, ast.Name) \
-                    and n.func.value.id == table and n.func.attr in MUTATORS:
-                if first_mut is None:
-                    first_mut = i
-            if isinstance(n, ast.Subscript) and isinstance(n.ctx, (ast.Store,
-                                                                   ast.Del)) \
-                    and isinstance(n.value, ast.Name) and n.value.id == table:
-                if first_mut is None:
-                    first_mut = i
-    ok = first_mut is None or (copied_at is not None and copied_at < first_mut)
+    TABLE = ("param", params[1])
+    EXPR = ("param", params[0])
+    KW = ("kwargs",)
+    mutated = []
+    applies = merged = True
+    n_ret = 0
+    for ps in summarize(fn, plain=True):
+        upd_receivers = []
+        for e in ps.events:
+            if e.kind == "call" and "." in e.name and \
+                    e.name.rsplit(".", 1)[1] in MUTATORS:
+                if e.value == TABLE:
+                    mutated.append(e.name)
+                if e.name.endswith(".update") and e.args == (KW,):
+                    upd_receivers.append(e.value)
+            if e.kind == "itemwrite" and e.value is not None and \
+                    getattr(e, "recv", None) == TABLE:
+                mutated.append(e.name)
+        if ps.term != "return":
+            continue
+        n_ret += 1
+        rv = ps.retval
+        callee = rv[4] if isinstance(rv, tuple) and len(rv) >= 5 else None
+        good = isinstance(rv, tuple) and rv[0] == "call" and rv[2] == (EXPR,) \
+            and isinstance(callee, tuple) and callee[0] == "call" and (
+                callee[4] == ("param", "mapper_cls") if len(callee) >= 5
+                else callee[1] == "mapper_cls") and len(callee[2]) == 1 \
+            and callee[2][0][0] == "call" and \
+            callee[2][0][1] == "make_subst_func" and len(callee[2][0][2]) == 1
+        if not good:
+            applies = False
+            continue
+        table = callee[2][0][2][0]
+        # the keyword assignments are in the table: it *is* (a copy of) them,
+        # or they were merged into it by update()
+        has_kw = table == KW or table in upd_receivers or contains(
+            table, lambda t: t == KW)
+        if not has_kw:
+            merged = False
+    ok = not mutated
     ctx.ob("P/substitute/copy-before-mutation", ok, loc,
            "the caller's mapping is copied before it is updated" if ok else
            "substitute() mutates the caller's variable_assignments mapping "
-           "(no copy dominates the first update)")
-    # default None handled
-    # the mapper is built from make_subst_func(table) and applied to expression
-    rets = [s for s in fn.body if isinstance(s, ast.Return)]
-    ok = False
-    if rets:
-        v = rets[-1].value
-        src = ast.unparse(v).replace(" ", "")
-        ok = src == f"mapper_cls(make_subst_func({table}))({params[0]})"
-    ctx.ob("P/substitute/applies-mapper", ok, loc,
-           "returns mapper_cls(make_subst_func(table))(expression)" if ok else
-           "substitute() does not apply mapper_cls(make_subst_func(<table>)) to "
-           "the expression")
-    # kwargs merged into the table
-    kw = fn.args.kwarg.arg if fn.args.kwarg else None
-    merged = kw is not None and any(
-        isinstance(n, ast.Call) and ast.unparse(n.func) == f"{table}.update"
-        and n.args and ast.unparse(n.args[0]) == kw for n in ast.walk(fn))
-    ctx.ob("P/substitute/merges-kwargs", merged, loc,
+           f"({sorted(set(mutated))} is applied to the parameter itself)")
+    applies = applies and n_ret >= 1
+    ctx.ob("P/substitute/applies-mapper", applies, loc,
+           "returns mapper_cls(make_subst_func(table))(expression)" if applies
+           else "substitute() does not apply mapper_cls(make_subst_func(<table>)) "
+           "to the expression")
+    ctx.ob("P/substitute/merges-kwargs", merged and applies, loc,
            "keyword assignments are merged" if merged else
            "keyword assignments are not merged into the table")
